@@ -409,9 +409,10 @@ impl StructureScanConfig {
             return self.global_deny_pattern_strs.get(idx).cloned();
         }
 
+        // Full-path match on the project-relative spelling (`./src/a.bak` == `src/a.bak`)
         if let Some(idx) = self
             .global_deny_patterns
-            .matches(file_path)
+            .matches(crate::output::path::normalize_for_matching(file_path))
             .into_iter()
             .next()
         {
@@ -438,7 +439,7 @@ impl StructureScanConfig {
 
         if let Some(idx) = self
             .global_deny_dir_patterns
-            .matches(dir_path)
+            .matches(crate::output::path::normalize_for_matching(dir_path))
             .into_iter()
             .next()
         {
